@@ -1,6 +1,7 @@
 (* C16/Property.v — property theorems only. *)
 From Coq Require Import String List Bool.
-From Verif Require Import Base.Str C16.Model C16.Spec C16.Classes C16.Proofs.
+From Verif Require Import Base.Str Base.Py Base.Py2 C16.Model C16.Spec C16.Classes C16.Proofs C16.Source2.
+From VerifGen Require Import C16Src2.
 Import ListNotations.
 
 (* C16, whole statement: for every flag combination, certificate source, identity and advice outside the one open
@@ -126,3 +127,185 @@ Theorem c16_class2_v0_refuted :
   /\ guard x_class2 /\ spec x_class2 (model_obs x_class2 ts0).
 Proof. exact class2_v0_refuted. Qed.
 Print Assumptions c16_class2_v0_refuted.
+
+(* ================================================================================================== *)
+(* Tie to the source TEXT (translator v2): the functions below are re-translated from /repo's current source on every
+   run (coq/gen/C16Src2.v, harness/c16.py:regenerate_tables); each theorem says that the translated function, applied
+   to the encoding of a model input, yields the encoding of what the model function it mirrors yields, for ALL inputs.
+   Hypotheses = what is assumed about the external calls (C16/Source2.v shows each set satisfiable). *)
+Open Scope string_scope.
+
+(* Entity.has_encrypt_cert_in_metadata = the `has` switch of Model.response (Source2.response_uses_has_cert) *)
+Theorem c16_source2_has_encrypt_cert_in_metadata :
+  forall (certs_ext : pyval -> pyval -> pyval -> pyval -> pyval) (self : pyval) (cert_text : cert -> string)
+         (m : list (use * cert)),
+  (forall sp : string, certs_ext self (PStr sp) (PStr "any") (PStr "encryption")
+                       = PList (map (enc_cert_entry cert_text) (enc_certs m))) ->
+  forall sp : option string,
+  src2_has_encrypt_cert_in_metadata certs_ext self (enc_opt_str sp)
+  = PBool match sp with Some _ => has_cert m | None => false end.
+Proof. exact src2_has_encrypt_cert_is_model. Qed.
+Print Assumptions c16_source2_has_encrypt_cert_in_metadata.
+
+(* Server._authn_response: flags of Model.effective, identity into the PEFIM advice assertion, to_sign iff
+   sign_assertion and not encrypt_assertion, every argument of Entity._response in its place *)
+Theorem c16_source2_authn_response :
+  forall (issuer_f : pyval -> list (string * pyval)) (aid : pyval -> string)
+         (afields : pyval -> list (string * pyval)) (advice_f : list (string * pyval))
+         (presig_f : pyval -> list (string * pyval)) (cn : pyval -> string) (adv_append : pyval -> pyval -> pyval)
+         (aidr aq : bool) (store_ext : pyval -> pyval -> pyval) (response_ext : pyval -> pyval)
+         (cert_text : cert -> string) (salg dalg mycert irt url sp : string) (p : passthru),
+  pass_good p ->
+  forall x : input, i_entry x = Server ->
+  src2_authn_response (issuer_ext issuer_f) (setup_ext aid afields) (advice_ext advice_f) adv_append
+    (presig_ext presig_f) (class_name_ext cn) (PBool aidr) (PBool aq) store_ext response_ext
+    (enc_server salg dalg mycert) (PStr irt) (PStr url) (PStr sp) (enc_atoms (attrs x)) (p_nid p) (p_status p)
+    (p_authn p) (p_issuer p) (p_policy p) (PBool (sa x)) (PBool (sr x)) (p_be p) (PBool (ea x))
+    (enc_optcert cert_text (cert_adv x)) (enc_optcert cert_text (cert_asrt x)) (p_astmt p) (PBool (sc x))
+    (PBool (eadv x)) (PBool (pefim x)) (p_salg p) (p_dalg p) (p_farg p) (p_snoa p)
+  = authn_response_model issuer_f aid afields advice_f presig_f cn adv_append aidr aq store_ext response_ext cert_text
+      salg dalg mycert irt url sp p x.
+Proof. exact src2_authn_response_is_model. Qed.
+Print Assumptions c16_source2_authn_response.
+
+(* SecurityContext.decrypt: per-request key files first, then the configured ones; first key that opens wins *)
+Theorem c16_source2_decrypt :
+  forall (crypto_decrypt : pyval -> pyval -> pyval) (ct : string) (outcome : string -> option string),
+  (forall k : string, crypto_decrypt (PStr ct) (PStr k)
+                      = match outcome k with Some t => PStr t | None => PExc "DecryptError" end) ->
+  forall (conf : list string) (kf : option (list string)),
+  src2_decrypt crypto_decrypt (enc_sec conf) (PStr ct) (enc_kf kf)
+  = match find (opens outcome) (keys_tried kf conf) with
+    | Some k => PStr (text_of outcome k)
+    | None => PExc "DecryptError"
+    end.
+Proof. exact src2_decrypt_is_model. Qed.
+Print Assumptions c16_source2_decrypt.
+
+(* ... which is Model.try_keys over Model.key_list *)
+Theorem c16_source2_decrypt_try_keys :
+  forall (crypto_decrypt : pyval -> pyval -> pyval) (ct : string) (outcome : string -> option string),
+  (forall k : string, crypto_decrypt (PStr ct) (PStr k)
+                      = match outcome k with Some t => PStr t | None => PExc "DecryptError" end) ->
+  forall (c : cert) (hit : bool) (req conf : list string),
+  forallb nonempty (req ++ conf)%list = true ->
+  (exists t : string,
+     src2_decrypt crypto_decrypt (enc_sec conf) (PStr ct) (enc_kf (Some (if hit then req else []))) = PStr t
+     /\ try_keys string (fun k _ => opens outcome k) (key_list hit req conf) c = true)
+  \/ (src2_decrypt crypto_decrypt (enc_sec conf) (PStr ct) (enc_kf (Some (if hit then req else []))) = PExc "DecryptError"
+      /\ try_keys string (fun k _ => opens outcome k) (key_list hit req conf) c = false).
+Proof. exact src2_decrypt_try_keys. Qed.
+Print Assumptions c16_source2_decrypt_try_keys.
+
+(* AuthnResponse.find_encrypt_data_assertion / find_encrypt_data: is there anything to decrypt *)
+Theorem c16_source2_find_encrypt_data_assertion : forall (self : pyval) (bs : list bool),
+  src2_find_encrypt_data_assertion self (PList (map enc_ea bs)) = if existsb (fun b => b) bs then PBool true else PNone.
+Proof. exact src2_find_encrypt_data_assertion_is_model. Qed.
+Print Assumptions c16_source2_find_encrypt_data_assertion.
+
+Theorem c16_source2_find_encrypt_data : forall (self : pyval) (d : doc),
+  src2_find_encrypt_data self (enc_doc d) = PBool (doc_has_enc_data d).
+Proof. exact src2_find_encrypt_data_is_model. Qed.
+Print Assumptions c16_source2_find_encrypt_data.
+
+(* ... on the model's wire: exactly the wires for which Model.sp_parse consults the keys *)
+Theorem c16_source2_find_encrypt_data_on_wire : forall (self : pyval) (w : wire),
+  src2_find_encrypt_data self (enc_doc (doc_of_wire w)) = PBool (wire_has_enc_data w)
+  /\ (wire_has_enc_data w = false ->
+      forall (key : Type) (can_open : key -> cert -> bool) ks ks' wr wa,
+      sp_parse key can_open ks wr wa w = sp_parse key can_open ks' wr wa w).
+Proof.
+  exact (fun self w => conj (src2_find_encrypt_data_on_wire self w)
+                            (fun H key can_open ks ks' wr wa => sp_parse_plain_keys_irrelevant key can_open ks ks' wr wa w H)).
+Qed.
+Print Assumptions c16_source2_find_encrypt_data_on_wire.
+
+(* AuthnResponse.decrypt_assertions: signature check on decrypted assertions (Model.open_adv: Source2.open_adv_is_decrypt_assertions) *)
+Theorem c16_source2_decrypt_assertions :
+  forall (ee2e : pyval -> pyval) (check_sig : pyval -> pyval -> pyval -> pyval -> pyval)
+         (class_name_ext : pyval -> pyval) (raises : leaf -> bool),
+  (forall ls : list leaf, ee2e (PList (map enc_ext ls)) = PList (map enc_dleaf ls)) ->
+  (forall v : pyval, is_bad (class_name_ext v) = false) ->
+  (forall (l : leaf) (txt : string) (node iss : pyval), is_bad node = false -> is_bad iss = false ->
+     check_sig (enc_dleaf l) (PStr txt) node iss
+     = if match l_sig l with Signed => l_wf l | _ => false end then enc_dleaf l
+       else if raises l then PExc "SignatureError" else PBool false) ->
+  forall (self : pyval) (eas : list (list leaf)) (txt : string) (iss : pyval) (verified : bool),
+  is_bad iss = false ->
+  src2_decrypt_assertions ee2e check_sig class_name_ext self (PList (map enc_dea eas)) (PStr txt) iss (PBool verified)
+  = match decrypt_assertions_model verified eas with
+    | Some ls => PList (map enc_dleaf ls)
+    | None => PExc "SignatureError"
+    end.
+Proof. exact src2_decrypt_assertions_is_model. Qed.
+Print Assumptions c16_source2_decrypt_assertions.
+
+Theorem c16_source2_decrypt_assertions_open_adv :
+  forall (key : Type) (can_open : key -> cert -> bool) (ks : list key) (c : cert) (l : leaf),
+  try_keys key can_open ks c = true ->
+  open_adv key can_open ks (AdvEnc c l)
+  = match decrypt_assertions_model false [[l]] with Some ls => Some (flat_map l_attrs ls) | None => None end.
+Proof. exact open_adv_is_decrypt_assertions. Qed.
+Print Assumptions c16_source2_decrypt_assertions_open_adv.
+
+(* AuthnResponse._assertion: signature requirement on the main assertion (Model.main_sig_ok), then the other checks *)
+Theorem c16_source2_assertion :
+  forall (check_sig3 : pyval -> pyval -> pyval -> pyval) (class_name_ext : pyval -> pyval) (xml cnm : string),
+  (forall i : ainput, class_name_ext (enc_masrt i) = PStr cnm) ->
+  (forall i : ainput, check_sig3 (enc_masrt i) (PStr cnm) (PStr xml)
+                      = match ai_check i with Some n => PExc n | None => enc_masrt i end) ->
+  forall i : ainput,
+  (forall t : string, ai_ai i = Some (Some t) -> end_ascii (strip t) = true) ->
+  src2_assertion check_sig3 class_name_ext (const_ext (PStr (ai_ri i))) (const_ext (enc_raise (ai_stmt i)))
+    (const_ext (PBool (ai_cond i))) (const_ext (enc_raise (ai_subj i))) (enc_aself xml i) (enc_masrt i)
+    (PBool (ai_verified i))
+  = assertion_model i.
+Proof. exact src2_assertion_is_model. Qed.
+Print Assumptions c16_source2_assertion.
+
+Theorem c16_source2_assertion_main_sig_ok : forall (wa : bool) (a : asrt) (i : ainput),
+  ai_wa i = wa -> ai_dnv i = false -> ai_verified i = false -> ai_sig i = a_sig a ->
+  ai_check i = (if match a_sig a with Signed => adv_schema_ok (a_adv a) | _ => false end
+                then None else Some "SignatureError") ->
+  assertion_model i = if main_sig_ok wa a then assertion_rest i else PExc "SignatureError".
+Proof. exact assertion_model_is_main_sig_ok. Qed.
+Print Assumptions c16_source2_assertion_main_sig_ok.
+
+(* sigver.pre_encrypt_assertion: no clear copy stays in the Response *)
+Theorem c16_source2_pre_encrypt_assertion :
+  forall (ea_f : list (string * pyval)) (add_el add_els : pyval -> pyval -> pyval) (old_ea rest : pyval) (a : asrt_slot),
+  src2_pre_encrypt_assertion (mk_ea ea_f) add_el add_els (resp_obj rest (enc_slot a) old_ea)
+  = match a with
+    | SNone => pre_encrypted ea_f rest
+    | SOne f => py_bind (add_el (mk_ea ea_f) (asrt_obj f)) (fun _ => pre_encrypted ea_f rest)
+    | SMany l => py_bind (add_els (mk_ea ea_f) (PList l)) (fun _ => pre_encrypted ea_f rest)
+    end.
+Proof. exact src2_pre_encrypt_assertion_is_model. Qed.
+Print Assumptions c16_source2_pre_encrypt_assertion.
+
+Theorem c16_source2_pre_encrypt_assertion_no_clear_copy :
+  forall (ea_f : list (string * pyval)) (add_el add_els : pyval -> pyval -> pyval) (old_ea rest : pyval)
+         (a : asrt_slot) (r : pyval),
+  src2_pre_encrypt_assertion (mk_ea ea_f) add_el add_els (resp_obj rest (enc_slot a) old_ea) = r ->
+  is_bad r = false -> p2_attr r "assertion" = PNone /\ p2_attr r "encrypted_assertion" = mk_ea ea_f.
+Proof. exact src2_pre_encrypt_assertion_no_clear_copy. Qed.
+Print Assumptions c16_source2_pre_encrypt_assertion_no_clear_copy.
+
+(* CryptoBackendXmlSec1.encrypt_assertion: the xmlsec1 command line, EncryptError whenever xmlsec1 fails *)
+Theorem c16_source2_xmlsec_encrypt_assertion :
+  forall (pre_f : list (string * pyval) -> list (string * pyval)) (ser : list (string * pyval) -> string)
+         (tmpname : string -> string) (run_xmlsec : pyval -> pyval -> pyval) (decode_ext : pyval -> pyval)
+         (xres : list pyval -> option pyval) (xmlsec_bin enc_key template key_type : string) (dtf : bool),
+  (forall com extra : list pyval,
+     run_xmlsec (PList com) (PList extra)
+     = match xres (com ++ extra)%list with Some o => PList [PNone; PNone; o] | None => PExc "XmlsecError" end) ->
+  forall (s : stmt_arg) (xpath node_id : option string),
+  src2_xmlsec_encrypt_assertion (pre_enc_c pre_f) (make_temp_c tmpname) (to_str_c ser) run_xmlsec decode_ext
+    (enc_backend xmlsec_bin dtf) (enc_stmt s) (PStr enc_key) (PStr template) (PStr key_type) (enc_opt_str xpath)
+    (enc_opt_str node_id)
+  = match xres (command_line pre_f ser tmpname xmlsec_bin enc_key template key_type s xpath node_id) with
+    | Some o => decode_ext o
+    | None => PExc "EncryptError"
+    end.
+Proof. exact src2_xmlsec_encrypt_assertion_is_model. Qed.
+Print Assumptions c16_source2_xmlsec_encrypt_assertion.
